@@ -970,6 +970,16 @@ def lower(fn: ast.FunctionDef, tuples: bool = True, ifexp: bool = True) -> ast.F
                     return c
                 new = [ast.copy_location(ast.If(test=ife.test, body=[mkc(ife.body)], orelse=[mkc(ife.orelse)]), st)]
             elif ifexp and isinstance(st, (ast.Assign, ast.AnnAssign, ast.Expr, ast.Return)) and isinstance(getattr(st, "value", None), ast.Call) \
+                    and isinstance(st.value.func, ast.IfExp) and is_pure_expr(st.value.func.test):
+                # (f if c else g)(args)  ->  if c: f(args) else: g(args)     (c is evaluated before the arguments either way)
+                ife = st.value.func
+
+                def mkf(fx: ast.expr) -> ast.stmt:
+                    c = copy.deepcopy(st)
+                    c.value.func = fx  # type: ignore[attr-defined]
+                    return c
+                new = [ast.copy_location(ast.If(test=ife.test, body=[mkf(ife.body)], orelse=[mkf(ife.orelse)]), st)]
+            elif ifexp and isinstance(st, (ast.Assign, ast.AnnAssign, ast.Expr, ast.Return)) and isinstance(getattr(st, "value", None), ast.Call) \
                     and dotted(st.value.func) is not None:
                 # f(x, A if c else B, ...) with otherwise pure arguments: branch on c at statement level
                 call = st.value
